@@ -4,3 +4,6 @@ _NOTE = ("Trusted base: numpy/scipy reference formulas in vp/oracle.py and the p
 claim("C01", "property-based testing (Hypothesis) against an independent numpy oracle",
       "Generated measures (4 kinds x 3 cache states) x factors (6 kinds) x {multiply,*,hadamard,product} x update_full are evaluated pointwise and compared with ln u_i(x)+ln f_j(x) computed in numpy from the constructor inputs, at the documented component layout; operand immutability checked bytewise.",
       _NOTE, "DESIGN.md §2 C01")
+claim("C02", "property-based testing (Hypothesis); oracle = quadratic fitted to evaluate_ln outputs, integrated in closed form",
+      "Generated measures after 0-3 history steps (multiply/hadamard/slice/queries) and densities from every route (constructor combinations, get_density, slice, marginal, linear sum, condition_on(x), cond(x), joint/marginal/conditional transformations for all 5 linear conditional classes and batch combos): the function the object evaluates to is recovered from evaluate_ln alone and its integral, mean and covariance are compared with the reported mass / 1 / exposed mu, Sigma.",
+      _NOTE, "DESIGN.md §2 C02")
